@@ -143,9 +143,20 @@ def check(r):
         "scipy Rotation.from_euler('ZY') read as Rz(lon)·Ry(-90-lat) (stub validated numerically each run)",
         "binary64 rounding not modelled: theorems are over the reals, decimal literals read as exact rationals, pi/180 read as PI/180",
     ]
+    r.trusted += [
+        "numpy arcsin / arccos / arctan2 read as Coq asin / acos / Spec.LibSpecs.atan2 (principal branches; the traced "
+        "ecef_to_lla is validated against the real function on random inputs each run)",
+        "division by zero is total in Coq's reals (x/0 = 0): the polar-axis and equatorial-plane theorems exclude the "
+        "origin (z <> 0, (x,y) <> (0,0)) where the code would return NaN",
+    ]
     r.assumptions += [
-        "ecef_to_lla (Olson) accuracy is NOT proved; the round trip is checked numerically only (support)",
-        "curvature_matrix / lla_to_ned first-order agreement checked numerically only (support)",
+        "ecef_to_lla (Olson): PROVED are the structure of the final step (C16_olson_newton_step: if the series guess is "
+        "exact the Newton correction vanishes and the output is the exact geodetic triple, all four paths), the exact "
+        "inverse on the equatorial plane and on the polar axis, and the longitude round trip for every point off the "
+        "axis; the ACCURACY of the series guess for a general point (hence the quantitative latitude/altitude round-trip "
+        "error off those sub-domains) is NOT proved and stays a numerical support check",
+        "C16_lla_to_ned_first_order and C16_curvature_is_frame_rotation are derivative-at-0 statements (is_derive) for "
+        "-90 < lat < 90, alt > -6000 km; the size of the second-order remainder is only checked numerically (support)",
     ]
     r.generate(['Earth', 'Transform', 'NumbaIntegrate'])
     r.prove('Props/C16.v')
